@@ -1,8 +1,112 @@
+import Corro.Model.WritePool
 import Driver.Util
-/-! Driver stub for C20: not built yet. -/
+/-! Line-protocol driver for C20: the harness steers the real `SplitPool` on a current-thread
+runtime (it polls the requesters' futures itself and lets the dispatcher task run only inside `run`),
+this driver performs the same ops on `Corro.WritePool`.
+
+```
+req <id> <p|n|l>     first poll of `write_priority|normal|low()`      -> queued
+run                  let the dispatcher task run until it blocks       -> ok
+poll <id>            poll the requester's future once                  -> pending | granted live=<n> | holding | gone
+drop <id>            drop the future / the WriteConn                   -> dropped future|conn|none
+dropheld             drop whichever WriteConn is held                  -> dropped <id>|none
+ext take|release     an outside party takes / returns the write permit -> ok | busy | none | refused
+state                                                                  -> holding=<ids> pending=<ids>
+stress <threads> <p:hold_us:cancel_us|-;…>   oracle-only family (real threads)  -> done n=<k>
+```
+-/
 namespace Driver.C20
-abbrev State := Unit
-def init : State := ()
-def step (st : State) (_toks : List String) : Option (State × String) := some (st, "bad-op")
+open Corro.WritePool
+
+structure State where
+  st : Corro.WritePool.State := Corro.WritePool.init
+  ids : List Nat := []          -- ids in order of creation
+
+def init : State := {}
+
+def cfg : Cfg := Cfg.standard
+
+def parsePrio : String → Option Prio
+  | "p" => some .priority
+  | "n" => some .normal
+  | "l" => some .low
+  | _ => none
+
+def idsWhere (s : State) (f : Phase → Bool) : List Nat :=
+  (s.ids.filter fun r => f (s.st.phase r))
+
+def isPending : Phase → Bool
+  | .queued | .granted | .hasGuard | .hasConn => true
+  | _ => false
+
+def isWokenNotHolding : Phase → Bool
+  | .granted | .hasGuard | .hasConn => true
+  | _ => false
+
+def sortNats (l : List Nat) : List Nat := (l.toArray.qsort (· < ·)).toList
+
+def validSpec (s : String) : Bool :=
+  match s.splitOn ":" with
+  | [p, h, c] => (parsePrio p).isSome && h.toNat?.isSome && (c == "-" || c.toNat?.isSome)
+  | _ => false
+
+def step (s : State) (toks : List String) : Option (State × String) :=
+  match toks with
+  | ["req", id, p] => do
+    let r ← id.toNat?
+    let p ← parsePrio p
+    if s.ids.contains r then none else
+    let st ← Corro.WritePool.step cfg s.st (.enqueue r p)
+    pure ({ st := st, ids := s.ids ++ [r] }, "queued")
+  | ["run"] =>
+    pure ({ s with st := runDispatcher cfg (2 * totalQueued s.st + 4) s.st }, "ok")
+  | ["poll", id] => do
+    let r ← id.toNat?
+    if !s.ids.contains r then none else
+    match s.st.phase r with
+    | .holding => pure (s, "holding")
+    | .gone => pure (s, "gone")
+    | _ =>
+      let st := pollRequester cfg s.st r
+      let s' := { s with st := st }
+      if st.phase r = .holding then
+        pure (s', s!"granted live={(idsWhere s' (· == .holding)).length}")
+      else pure (s', "pending")
+  | ["drop", id] => do
+    let r ← id.toNat?
+    if !s.ids.contains r then none else
+    match s.st.phase r with
+    | .gone => pure (s, "dropped none")
+    | .holding =>
+      let st ← Corro.WritePool.step cfg s.st (.release r)
+      pure ({ s with st := st }, "dropped conn")
+    | _ =>
+      let st ← Corro.WritePool.step cfg s.st (.cancel r)
+      pure ({ s with st := st }, "dropped future")
+  | ["dropheld"] =>
+    match idsWhere s (· == .holding) with
+    | r :: _ => do
+      let st ← Corro.WritePool.step cfg s.st (.release r)
+      pure ({ s with st := st }, s!"dropped {r}")
+    | [] => pure (s, "dropped none")
+  | ["ext", "take"] =>
+    if !(idsWhere s isWokenNotHolding).isEmpty then pure (s, "refused") else
+    match Corro.WritePool.step cfg s.st .extAcquire with
+    | some st => pure ({ s with st := st }, "ok")
+    | none => pure (s, "busy")
+  | ["ext", "release"] =>
+    match Corro.WritePool.step cfg s.st .extRelease with
+    | some st => pure ({ s with st := st }, "ok")
+    | none => pure (s, "none")
+  | ["state"] =>
+    pure (s, s!"holding={showNats (sortNats (idsWhere s (· == .holding)))} pending={showNats (sortNats (idsWhere s isPending))}")
+  | ["stress", th, specs] => do
+    let t ← th.toNat?
+    if t = 0 || t > 16 then none else
+    let sp := splitList specs ";"
+    if sp.isEmpty || !sp.all validSpec then none else
+    pure (s, s!"done n={sp.length}")
+  | _ => none
+
 end Driver.C20
 def main : IO Unit := Driver.runLoop Driver.C20.init Driver.C20.step
